@@ -6,6 +6,7 @@ import (
 	"encoding/json"
 	"fmt"
 	"sort"
+	"strconv"
 	"strings"
 
 	"github.com/go-python/gpython/py"
@@ -155,7 +156,8 @@ func (Engine) Gen(seed uint64, idx int, tier string) interface{} {
 	}
 	id := 0
 	closes := 0
-	kinds := []string{"run", "run", "run", "modinit", "modsrc", "regmod", "resolve", "runfile", "close", "close", "modsrc-bad", "modbuf-bad", "modbuf-notcode"}
+	kinds := []string{"run", "run", "run", "modinit", "modsrc", "regmod", "resolve", "runfile", "close", "close", "modsrc-bad", "modbuf-bad", "modbuf-notcode", "call", "call", "goimport"}
+	inners := []string{"exec-code", "exec-code", "eval-code", "exec-src", "eval-src", "import:simcb0", "import:simcb1", "import:simcb2", "import:srca", "import:srcb", "import:nosuch", "dunder-import:simcb1"}
 	nests := []string{"", "", "cb:0", "cb:1", "cb:2", "src:srca", "src:srcb", "exec", "raise", "badsrc", "src:nosuch", "panicimport"}
 	for t := 0; t < nt; t++ {
 		var ts TaskSpec
@@ -172,6 +174,11 @@ func (Engine) Gen(seed uint64, idx int, tier string) interface{} {
 				op.Nested = nests[r.Intn(len(nests))]
 			case "regmod":
 				op.Path = fmt.Sprint(r.Intn(nCB))
+			case "call":
+				op.Hold = r.Intn(6)
+				op.Nested = inners[r.Intn(len(inners))]
+			case "goimport":
+				op.Path = []string{"simcb0", "simcb1", "simcb2", "srca", "srcb", "nosuch", "bad"}[r.Intn(7)]
 			case "resolve", "runfile":
 				op.Path = []string{"srca", "srcb", "nosuch", "bad"}[r.Intn(4)]
 			case "close":
@@ -372,6 +379,60 @@ func bodySrc(op Op) string {
 	return b.String()
 }
 
+// importTarget names the module a goimport / call import:* request loads.
+func importTarget(op Op) string {
+	switch {
+	case op.Kind == "goimport":
+		return op.Path
+	case op.Kind == "call" && strings.HasPrefix(op.Nested, "import:"):
+		return op.Nested[len("import:"):]
+	case op.Kind == "call" && strings.HasPrefix(op.Nested, "dunder-import:"):
+		return op.Nested[len("dunder-import:"):]
+	}
+	return ""
+}
+
+// callDef is the set-up source defining f_<id> for a "call" request.
+func callDef(op Op) string {
+	inner := Op{ID: op.ID, Hold: op.Hold}
+	body := bodySrc(inner)
+	expr := fmt.Sprintf("simhost.mark('s', %d) or simhost.hold(%d) or simhost.mark('e', %d)", op.ID, op.Hold, op.ID)
+	var b strings.Builder
+	b.WriteString("import simhost\n")
+	switch {
+	case op.Nested == "exec-code":
+		fmt.Fprintf(&b, "c_%d = compile(%s, '<inner%d>', 'exec')\ndef f_%d():\n    exec(c_%d)\n", op.ID, strconv.Quote(body), op.ID, op.ID, op.ID)
+	case op.Nested == "eval-code":
+		fmt.Fprintf(&b, "c_%d = compile(%s, '<inner%d>', 'eval')\ndef f_%d():\n    return eval(c_%d)\n", op.ID, strconv.Quote(expr), op.ID, op.ID, op.ID)
+	case op.Nested == "exec-src":
+		fmt.Fprintf(&b, "def f_%d():\n    exec(%s)\n", op.ID, strconv.Quote(body))
+	case op.Nested == "eval-src":
+		fmt.Fprintf(&b, "def f_%d():\n    return eval(%s)\n", op.ID, strconv.Quote(expr))
+	case strings.HasPrefix(op.Nested, "import:"):
+		fmt.Fprintf(&b, "def f_%d():\n    import %s\n", op.ID, op.Nested[len("import:"):])
+	case strings.HasPrefix(op.Nested, "dunder-import:"):
+		fmt.Fprintf(&b, "def f_%d():\n    return __import__(%q)\n", op.ID, op.Nested[len("dunder-import:"):])
+	default:
+		fmt.Fprintf(&b, "def f_%d():\n    pass\n", op.ID)
+	}
+	return b.String()
+}
+
+func mustCompile(src, name string) *py.Code {
+	c, err := py.Compile(src, name, py.ExecMode, 0, true)
+	if err != nil {
+		panic("lifecycle set-up source does not compile: " + pyErr(err) + "\n" + src)
+	}
+	return c
+}
+
+func pyErr(err error) string {
+	if e, ok := err.(*py.ExceptionInfo); ok {
+		return fmt.Sprint(e.Type.Name, ": ", e.Value)
+	}
+	return err.Error()
+}
+
 func mkSched(sc *Scenario, nTasks int) simrt.Scheduler {
 	r := simrt.NewRand(sc.SSeed)
 	switch sc.Policy {
@@ -438,6 +499,29 @@ func (e Engine) Exec(sci interface{}, opt harness.ExecOpts) *harness.Outcome {
 		out.Infra = "setup: main module: " + err.Error()
 		return out
 	}
+	// "call" requests: a Python function defined before the run and invoked
+	// directly from Go (py.Call) - the call itself is not an execution request,
+	// but what the function does (exec/eval of a code object or of source,
+	// import of a module not loaded yet) is, and must be admitted or refused by
+	// the context exactly like a request made through the Context methods
+	fns := map[int]py.Object{}
+	for _, t := range sc.Tasks {
+		for _, op := range t.Ops {
+			if op.Kind != "call" {
+				continue
+			}
+			def := callDef(op)
+			if _, err := ctx.RunCode(mustCompile(def, fmt.Sprintf("<def%d>", op.ID)), mainMod.Globals, mainMod.Globals, nil); err != nil {
+				out.Infra = "setup: define call target: " + pyErr(err) + "\n" + def
+				return out
+			}
+			fns[op.ID] = mainMod.Globals[fmt.Sprintf("f_%d", op.ID)]
+			if fns[op.ID] == nil {
+				out.Infra = "setup: call target missing"
+				return out
+			}
+		}
+	}
 
 	// every access to the file system behind the resolver is work done on
 	// behalf of an admitted request: it must not happen after Close returned
@@ -457,6 +541,7 @@ func (e Engine) Exec(sci interface{}, opt harness.ExecOpts) *harness.Outcome {
 
 	type reqResult struct {
 		op       Op
+		loaded   bool // goimport / call import:* : the module was already loaded when the request was made
 		invoke   int64
 		ret      int64
 		err      error
@@ -492,6 +577,10 @@ func (e Engine) Exec(sci interface{}, opt harness.ExecOpts) *harness.Outcome {
 				default:
 					rr := &reqResult{op: op}
 					results[op.ID] = rr
+					if name := importTarget(op); name != "" {
+						_, e := ctx.Store().GetModule(name)
+						rr.loaded = e == nil
+					}
 					rr.invoke = r.ev("req.invoke", op.ID, op.Kind)
 					var err error
 					func() {
@@ -521,6 +610,10 @@ func (e Engine) Exec(sci interface{}, opt harness.ExecOpts) *harness.Outcome {
 							_, err = ctx.ResolveAndCompile(op.Path, py.CompileOpts{UseSysPaths: true})
 						case "runfile":
 							_, err = py.RunFile(ctx, op.Path, py.CompileOpts{UseSysPaths: true}, fmt.Sprintf("rf%d", op.ID))
+						case "goimport":
+							err = py.Import(ctx, op.Path)
+						case "call":
+							_, err = py.Call(fns[op.ID], nil, nil)
 						}
 					}()
 					rr.err = err
@@ -690,7 +783,10 @@ func (e Engine) Exec(sci interface{}, opt harness.ExecOpts) *harness.Outcome {
 		reqSpans = append(reqSpans, span{rr.invoke, rr.ret})
 		if firstCloseRet > 0 && rr.invoke > firstCloseRet {
 			afterClose = true
-			if rr.err == nil {
+			if importTarget(rr.op) != "" && rr.loaded {
+				// importing a module that is already loaded executes nothing
+				out.Probe("import_of_loaded_module_after_close")
+			} else if rr.err == nil {
 				out.Violate("I5-request-after-close-succeeded", "after-close-ok|"+rr.op.Kind, "request %d (%s) invoked (seq %d) after Close returned (seq %d) did not fail", id, rr.op.Kind, rr.invoke, firstCloseRet)
 			}
 			if bodyStarted[id] {
@@ -702,6 +798,15 @@ func (e Engine) Exec(sci interface{}, opt harness.ExecOpts) *harness.Outcome {
 		for _, q := range reqSpans {
 			if c.a < q.b && q.a < c.b {
 				overlap = true
+			}
+		}
+	}
+	if !res.Deadlock && !res.Capped && len(res.Panics) == 0 && firstCloseRet > 0 {
+		// every callback module the context holds when everything is over was
+		// created by an admitted request, i.e. before the callbacks ran
+		for i := 0; i < nCB; i++ {
+			if _, e := ctx.Store().GetModule(fmt.Sprintf("simcb%d", i)); e == nil && cbCount[i] == 0 {
+				out.Violate("I6-module-added-after-callbacks", "cb-missing|late-module", "module simcb%d is in the closed context but its close callback never ran: it was created after (or while) the callbacks ran", i)
 			}
 		}
 	}
